@@ -64,6 +64,24 @@ type c19Exchange struct {
 	// timeout)/2 before each, after waiting for "100 Continue" when it asked for it: the upstream has the request
 	// only then, and its Delay counts from there
 	SlowUpload bool `json:"slow_upload,omitempty"`
+	// SSE: the request carries "Accept: text/event-stream" (exactly), for which fabio picks its server-sent-events
+	// handler (a reverse proxy with the configured flush interval). The flag is independent of everything else: the
+	// upstream may answer late, never, with an ordinary reply, with a protocol switch, or (Events) with an event stream
+	SSE bool `json:"accept_event_stream,omitempty"`
+	// Events (with SSE, in-time replies only): the final answer is "200, Content-Type: text/event-stream" without a
+	// Content-Length; the events follow in these pieces, each after its pause. StreamEnd says how the stream ends:
+	// "chunked" (last-chunk, after EndPause when > 0, else together with the last piece) or "close" (a reply delimited
+	// by the end of the connection)
+	Events    []c19Piece    `json:"event_stream_pieces,omitempty"`
+	StreamEnd string        `json:"event_stream_end,omitempty"`
+	EndPause  time.Duration `json:"pause_before_end_of_stream,omitempty"`
+}
+
+// c19Piece is one write of an upstream that streams events: a whole event or a part of one.
+type c19Piece struct {
+	Len   int           `json:"bytes"`
+	Pause time.Duration `json:"pause_before"`
+	data  []byte
 }
 
 // c19Interim is one interim response of an upstream.
@@ -87,6 +105,11 @@ type c19Scenario struct {
 	Exchanges             []c19Exchange `json:"exchanges"`
 	Burst                 int           `json:"burst"` // concurrent requests to one upstream (0: none)
 	BurstRoute            string        `json:"burst_route,omitempty"`
+	// BurstSSE: the requests of the burst carry "Accept: text/event-stream" (the upstream answers them with an
+	// ordinary short reply)
+	BurstSSE bool `json:"burst_accepts_event_stream,omitempty"`
+	// FlushInterval is proxy.flushinterval, which fabio uses for requests that accept an event stream
+	FlushInterval time.Duration `json:"flush_interval"`
 }
 
 var c19Keys = map[string]string{"default": "up0.sim:80", "skipverify": "up1.sim:443", "perroute": "up2.sim:443", "blackhole": "up3.sim:80", "burst": "up4.sim:80"}
@@ -176,12 +199,46 @@ func runC19(r *simcore.Run) {
 		if ex.Route == "blackhole" && ex.Upload == 0 && g.Chance(25) {
 			ex.Upgrade, ex.WS = true, true
 		}
+		if g.Chance(30) {
+			// the handler kind fabio picks depends on the Accept header only (after the websocket test): the flag
+			// combines with every route, delay, upload and upgrade above
+			ex.SSE = true
+			if !ex.Hang && ex.Delay < T && ex.Route != "blackhole" && !ex.Upgrade && !ex.SlowBody && g.Chance(70) {
+				// an event stream: one or two events, whole or cut in two, a pause > 0 before every piece (also before
+				// the first: see the note on the immediate flush in c19ServeUpstream). Pauses are short, as long as an
+				// ordinary slow body's, or longer than every configured limit; exchange i adds i+1 microseconds so that
+				// streams of concurrent exchanges do not tick at the same instants
+				long := (sc.DialTimeout + T) / 2
+				pauses := []time.Duration{10 * time.Millisecond, long, sc.DialTimeout + T + sc.IdleConnTimeout}
+				if pauses[2] > 90*time.Second {
+					pauses[2] = long
+				}
+				off := time.Duration(i+1) * time.Microsecond
+				nev := g.Range(1, 2)
+				for k := 0; k < nev; k++ {
+					ev := []byte(fmt.Sprintf("id: %d\nevent: tick\ndata: %x\n\n", k+1, g.Bytes(g.Range(1, 24))))
+					if g.Chance(40) {
+						cut := g.Range(1, len(ev)-1)
+						ex.Events = append(ex.Events, c19Piece{Len: cut, Pause: simcore.Pick(g, pauses) + off, data: ev[:cut]})
+						ev = ev[cut:]
+					}
+					ex.Events = append(ex.Events, c19Piece{Len: len(ev), Pause: simcore.Pick(g, pauses) + off, data: ev})
+				}
+				ex.StreamEnd = simcore.Pick(g, []string{"chunked", "chunked", "close"})
+				if ex.StreamEnd == "chunked" && g.Chance(50) {
+					ex.EndPause = simcore.Pick(g, pauses) + off
+				}
+			}
+		}
 		sc.Exchanges = append(sc.Exchanges, ex)
 	}
 	if g.Chance(40) {
 		sc.Burst = sc.MaxConn + g.Range(1, 3)
 		sc.BurstRoute = simcore.Pick(g, []string{"burst", "perroute", "skipverify"})
+		sc.BurstSSE = g.Chance(35)
 	}
+	// the documented default first
+	sc.FlushInterval = simcore.Pick(g, []time.Duration{time.Second, 0, 130 * time.Millisecond})
 	r.SetSample(sc)
 
 	cfg := &config.Config{}
@@ -194,6 +251,7 @@ func runC19(r *simcore.Run) {
 	cfg.Proxy.KeepAliveTimeout = sc.KeepAliveTimeout
 	cfg.Proxy.IdleConnTimeout = sc.IdleConnTimeout
 	cfg.Proxy.MaxConn = sc.MaxConn
+	cfg.Proxy.FlushInterval = sc.FlushInterval
 	table := strings.Join([]string{
 		"route add s0 /default http://up0.sim:80/",
 		"route add s1 /skipverify https://up1.sim:443/ opts \"tlsskipverify=true\"",
@@ -222,6 +280,17 @@ func runC19(r *simcore.Run) {
 			// four pieces, each after a pause of (dial timeout + response-header timeout)/2: the head is in time, the body is not "fast"
 			rq.Resp.Chunks = []int{1, 1, 1, 1}
 			rq.Resp.BodyPause = (sc.DialTimeout + sc.ResponseHeaderTimeout) / 2
+		}
+		if ex.SSE {
+			rq.Headers = append(rq.Headers, h2Header{"Accept", "text/event-stream"})
+		}
+		if len(ex.Events) > 0 {
+			var all []byte
+			for _, p := range ex.Events {
+				all = append(all, p.data...)
+			}
+			rq.Resp.Body = all
+			rq.Resp.Headers = []h2Header{{"Content-Type", "text/event-stream"}, {"Cache-Control", "no-cache"}}
 		}
 		if ex.Upload > 0 {
 			rq.Method = "POST"
@@ -278,21 +347,27 @@ func runC19(r *simcore.Run) {
 		if res == nil {
 			res = &h2Result{}
 		}
+		// kind names the handler kind and the transport in violation signatures
+		kind := ex.Route
+		if ex.SSE {
+			kind = "sse-" + ex.Route
+			r.Probe("accept_event_stream")
+		}
 		if res.Err == nil && res.DoneAt.IsZero() {
 			// no answer and no end of the connection up to the horizon
 			r.Nontrivial()
-			r.Tracef("exchange %d %s delay=%s hang=%v interim=%d upgrade=%v -> client still waiting after %s", i, ex.Route, ex.Delay, ex.Hang, len(ex.Interim), ex.Upgrade, r.SimElapsed())
+			r.Tracef("exchange %d %s delay=%s hang=%v interim=%d upgrade=%v sse=%v events=%d -> client still waiting after %s", i, ex.Route, ex.Delay, ex.Hang, len(ex.Interim), ex.Upgrade, ex.SSE, len(ex.Events), r.SimElapsed())
 			switch {
 			case ex.Route == "blackhole":
-				r.Fail("dial-timeout", "never-released", "upstream dial black-holed, dial timeout %s: the client is still waiting after %s", sc.DialTimeout, r.SimElapsed())
+				r.Fail("dial-timeout", c19SSEsig(ex, "never-released"), "upstream dial black-holed, dial timeout %s: the client is still waiting after %s", sc.DialTimeout, r.SimElapsed())
 			case ex.Hang || ex.Delay > T:
-				r.Fail("timeout", ex.Route+"/never-released", "upstream (%s) without a final response header (delay %s hang %v, interim responses sent: %d), response-header timeout %s: the client is still waiting after %s", ex.Route, ex.Delay, ex.Hang, len(ex.Interim), T, r.SimElapsed())
+				r.Fail("timeout", kind+"/never-released", "upstream (%s) without a final response header (delay %s hang %v, interim responses sent: %d), response-header timeout %s: the client is still waiting after %s", ex.Route, ex.Delay, ex.Hang, len(ex.Interim), T, r.SimElapsed())
 			default:
-				r.Fail("timeout", ex.Route+"/in-time-not-served", "upstream (%s) answered after %s < timeout %s but the client is still waiting after %s", ex.Route, ex.Delay, T, r.SimElapsed())
+				r.Fail("timeout", kind+"/in-time-not-served", "upstream (%s) answered after %s < timeout %s but the client is still waiting after %s", ex.Route, ex.Delay, T, r.SimElapsed())
 			}
 			continue
 		}
-		r.Tracef("exchange %d %s delay=%s hang=%v interim=%d upgrade=%v -> status=%d err=%v elapsed=%s", i, ex.Route, ex.Delay, ex.Hang, len(ex.Interim), ex.Upgrade, res.Status, res.Err, res.DoneAt.Sub(res.SentAt))
+		r.Tracef("exchange %d %s delay=%s hang=%v interim=%d upgrade=%v sse=%v events=%d -> status=%d err=%v elapsed=%s", i, ex.Route, ex.Delay, ex.Hang, len(ex.Interim), ex.Upgrade, ex.SSE, len(ex.Events), res.Status, res.Err, res.DoneAt.Sub(res.SentAt))
 		if ex.Route == "blackhole" {
 			r.Nontrivial()
 			r.Probe("dial_blackholed")
@@ -301,14 +376,14 @@ func runC19(r *simcore.Run) {
 				// is not judged, only that the configured dial timeout releases the client
 				r.Probe("websocket_dial_blackholed")
 				if el := res.DoneAt.Sub(res.SentAt); el > sc.DialTimeout {
-					r.Fail("dial-timeout", "late", "websocket upstream dial black-holed: client released after %s (status=%d err=%v), configured dial timeout %s", el, res.Status, res.Err, sc.DialTimeout)
+					r.Fail("dial-timeout", c19SSEsig(ex, "late"), "websocket upstream dial black-holed: client released after %s (status=%d err=%v), configured dial timeout %s", el, res.Status, res.Err, sc.DialTimeout)
 				}
 				continue
 			}
 			if res.Err != nil || (res.Status != 504 && res.Status != 502) {
-				r.Fail("dial-timeout", "no-gateway-error", "upstream dial black-holed, dial timeout %s: client got status=%d err=%v", sc.DialTimeout, res.Status, res.Err)
+				r.Fail("dial-timeout", c19SSEsig(ex, "no-gateway-error"), "upstream dial black-holed, dial timeout %s: client got status=%d err=%v", sc.DialTimeout, res.Status, res.Err)
 			} else if el := res.DoneAt.Sub(res.SentAt); el > sc.DialTimeout {
-				r.Fail("dial-timeout", "late", "upstream dial black-holed: gateway error after %s, configured dial timeout %s", el, sc.DialTimeout)
+				r.Fail("dial-timeout", c19SSEsig(ex, "late"), "upstream dial black-holed: gateway error after %s, configured dial timeout %s", el, sc.DialTimeout)
 			}
 			continue
 		}
@@ -325,12 +400,12 @@ func runC19(r *simcore.Run) {
 				r.Probe("interim_then_slower_than_timeout")
 			}
 			if res.Err != nil || res.Status != 504 {
-				r.Fail("timeout", ex.Route+"/no-504", "upstream (%s) without a final response header for longer than response-header timeout %s (delay %s hang %v, interim responses sent: %d): client got status=%d err=%v after %s", ex.Route, T, ex.Delay, ex.Hang, len(ex.Interim), res.Status, res.Err, res.DoneAt.Sub(seen[0].At))
+				r.Fail("timeout", kind+"/no-504", "upstream (%s) without a final response header for longer than response-header timeout %s (delay %s hang %v, interim responses sent: %d): client got status=%d err=%v after %s", ex.Route, T, ex.Delay, ex.Hang, len(ex.Interim), res.Status, res.Err, res.DoneAt.Sub(seen[0].At))
 			} else if el := res.DoneAt.Sub(seen[0].At); el > T {
-				r.Fail("timeout", ex.Route+"/late-504", "504 arrived %s after the upstream received the request, configured timeout %s", el, T)
+				r.Fail("timeout", kind+"/late-504", "504 arrived %s after the upstream received the request, configured timeout %s", el, T)
 			} else if el := res.DoneAt.Sub(res.SentAt); el > T {
 				// the simulated network adds no latency, so the client's own wait is bounded by the timeout as well
-				r.Fail("timeout", ex.Route+"/client-held-longer", "the client was held for %s, configured response-header timeout %s (no simulated network latency)", el, T)
+				r.Fail("timeout", kind+"/client-held-longer", "the client was held for %s, configured response-header timeout %s (no simulated network latency)", el, T)
 			}
 		} else {
 			r.Probe("upstream_in_time")
@@ -343,10 +418,17 @@ func runC19(r *simcore.Run) {
 			if ex.SlowUpload {
 				r.Probe("slow_upload_in_time")
 			}
+			if len(ex.Events) > 0 {
+				// narrow reading: the events must reach the client completely and unaltered by the time the stream
+				// has ended; when each of them is flushed towards the client is not judged
+				r.Probe("event_stream_in_time")
+			} else if ex.SSE {
+				r.Probe("accept_event_stream_ordinary_reply")
+			}
 			if ex.Upgrade && res.Err == nil && res.Status == 101 && (res.BodyErr != nil || string(res.Body) != string(reqs[i].Resp.Body)) {
-				r.Fail("timeout", ex.Route+"/tunnel-cut", "upstream (%s) switched protocols after %s < timeout %s, but the tunnel did not carry the data exchanged during the next %s: echoed %q of %q, err=%v", ex.Route, ex.Delay, T, sc.DialTimeout+T, res.Body, reqs[i].Resp.Body, res.BodyErr)
+				r.Fail("timeout", kind+"/tunnel-cut", "upstream (%s) switched protocols after %s < timeout %s, but the tunnel did not carry the data exchanged during the next %s: echoed %q of %q, err=%v", ex.Route, ex.Delay, T, sc.DialTimeout+T, res.Body, reqs[i].Resp.Body, res.BodyErr)
 			} else if res.Err != nil || res.BodyErr != nil || res.Status != reqs[i].Resp.Status || string(res.Body) != string(reqs[i].Resp.Body) {
-				r.Fail("timeout", ex.Route+"/in-time-not-served", "upstream (%s) answered %d after %s < timeout %s (interim responses first: %d) but the client got status=%d err=%v body=%d/%d body-err=%v", ex.Route, reqs[i].Resp.Status, ex.Delay, T, len(ex.Interim), res.Status, res.Err, len(res.Body), len(reqs[i].Resp.Body), res.BodyErr)
+				r.Fail("timeout", kind+"/in-time-not-served", "upstream (%s) answered %d after %s < timeout %s (interim responses first: %d) but the client got status=%d err=%v body=%d/%d body-err=%v", ex.Route, reqs[i].Resp.Status, ex.Delay, T, len(ex.Interim), res.Status, res.Err, len(res.Body), len(reqs[i].Resp.Body), res.BodyErr)
 			}
 		}
 	}
@@ -370,6 +452,9 @@ func runC19(r *simcore.Run) {
 		for i := 0; i < sc.Burst; i++ {
 			rq := h2Req{ID: fmt.Sprintf("b%d", i), Method: "GET", Path: "/" + sc.BurstRoute + "/r", Host: "fabio.sim", Headers: []h2Header{{"Accept-Encoding", "identity"}},
 				Resp: h2Resp{Status: 200, Body: []byte("ok"), Delay: 10 * time.Millisecond}}
+			if sc.BurstSSE {
+				rq.Headers = append(rq.Headers, h2Header{"Accept", "text/event-stream"})
+			}
 			ids = append(ids, rq.ID)
 			e.client(&h2Client{Addr: fmt.Sprintf("192.0.2.%d:6000", 50+i), Reqs: []h2Req{rq}})
 		}
@@ -389,7 +474,7 @@ func runC19(r *simcore.Run) {
 				open++
 			}
 		}
-		r.Tracef("burst %d -> %d idle upstream connections (max %d)", sc.Burst, open, sc.MaxConn)
+		r.Tracef("burst %d sse=%v -> %d idle upstream connections (max %d)", sc.Burst, sc.BurstSSE, open, sc.MaxConn)
 		r.Nontrivial()
 		r.Probe("burst_above_maxconn")
 		if open > sc.MaxConn {
@@ -532,6 +617,54 @@ func c19ServeUpstream(e *h2Env, key string, c net.Conn, scripts map[string]*c19E
 			io.Copy(c, br) // the new protocol: echo until the proxy ends the tunnel
 			return
 		}
+		if len(ex.Events) > 0 {
+			// an event stream: no Content-Length, as real servers send it. For a reply of unknown length (and for
+			// this Content-Type) httputil.ReverseProxy flushes after every write and arms an immediate flush timer
+			// when it starts to copy; that timer goroutine races the copy loop in real time if body bytes are at hand
+			// already (DESIGN 10.3). Every piece, the first one too, follows a pause > 0, so the head has been
+			// delivered, copied and flushed before the next byte exists
+			var b bytes.Buffer
+			fmt.Fprintf(&b, "HTTP/1.1 %d %s\r\n", rs.Status, http.StatusText(rs.Status))
+			for _, h := range rs.Headers {
+				fmt.Fprintf(&b, "%s: %s\r\n", h.K, h.V)
+			}
+			chunked := ex.StreamEnd != "close"
+			if chunked {
+				b.WriteString("Transfer-Encoding: chunked\r\n\r\n")
+			} else {
+				b.WriteString("Connection: close\r\n\r\n")
+			}
+			if _, err := c.Write(b.Bytes()); err != nil {
+				return
+			}
+			for i, p := range ex.Events {
+				if !sleep(p.Pause) {
+					return
+				}
+				out := p.data
+				if chunked {
+					out = []byte(fmt.Sprintf("%x\r\n%s\r\n", len(p.data), p.data))
+					if i == len(ex.Events)-1 && ex.EndPause == 0 {
+						out = append(out, "0\r\n\r\n"...)
+					}
+				}
+				if _, err := c.Write(out); err != nil {
+					return
+				}
+			}
+			if !chunked {
+				return // the end of the connection ends the stream
+			}
+			if ex.EndPause > 0 {
+				if !sleep(ex.EndPause) {
+					return
+				}
+				if _, err := io.WriteString(c, "0\r\n\r\n"); err != nil {
+					return
+				}
+			}
+			continue
+		}
 		// the reply as a head and pieces, with a pause before each piece
 		var head []byte
 		var pieces [][]byte
@@ -591,6 +724,14 @@ func c19ServeUpstream(e *h2Env, key string, c net.Conn, scripts map[string]*c19E
 			}
 		}
 	}
+}
+
+// c19SSEsig marks the signature of a violation seen on a request that accepts an event stream.
+func c19SSEsig(ex c19Exchange, sig string) string {
+	if ex.SSE {
+		return "sse-" + sig
+	}
+	return sig
 }
 
 func c19TunnelLine(id string, n int) string { return fmt.Sprintf("data %d of %s\n", n, id) }
